@@ -677,7 +677,7 @@ struct Acc {
 
 fn one_run(acc: &mut Acc, base_seed: u64, i: u64, det_n: u64) {
     simcore::isolate::trace_run(i);
-    let run_seed = rng::mix(base_seed, rng::domain(PROP), i);
+    let run_seed = rng::mix(base_seed, simcore::stage_domain(PROP), i);
     let mut rng = Rng::new(run_seed);
     let h = gen(&mut rng);
     let ex = execute(&h);
@@ -836,12 +836,12 @@ fn do_replay(path: &str) -> i32 {
 pub fn main(args: &Args) -> i32 {
     let base_seed = args.num("--seed").unwrap_or_else(simcore::seed_from_env);
     let emit = |idx: u64, sig: &str| -> String {
-        let run_seed = rng::mix(base_seed, rng::domain(PROP), idx);
+        let run_seed = rng::mix(base_seed, simcore::stage_domain(PROP), idx);
         let h = gen(&mut Rng::new(run_seed));
-        let path = format!("{}/replays/{PROP}-{}-{}.json", simcore::verif_dir(), base_seed, idx);
+        let path = simcore::replay_path(PROP, base_seed, idx);
         simcore::write_json_atomic(
             &path,
-            &json!({"property": PROP, "engine": "sim_io/c15 (single-client SourceView histories)", "base_seed": base_seed, "run_index": idx,
+            &json!({"property": PROP, "profile": simcore::profile_name(), "engine": "sim_io/c15 (single-client SourceView histories)", "base_seed": base_seed, "run_index": idx,
                     "run_seed": run_seed, "history": h.to_json(), "signature": sig, "event_hash": "",
                     "detail": "the process died inside a library call while executing this history (not minimised)"}),
         );
@@ -857,13 +857,13 @@ pub fn main(args: &Args) -> i32 {
     let workers = args.num("--workers").map(|w| w as usize).unwrap_or_else(simcore::par::workers_from_env);
     let runs = args.num("--runs").unwrap_or(match tier {
         Tier::Quick => 400_000,
-        Tier::Thorough => 200_000_000,
+        Tier::Thorough => 200_000_000 / if simcore::debug_stage() { 10 } else { 1 },
     });
     let det_n = match tier {
         Tier::Quick => 200.min(runs),
         Tier::Thorough => 2000.min(runs),
     };
-    println!("sim_io property={PROP} tier={} VERIF_SEED={base_seed} runs={runs} workers={workers}", tier.name());
+    println!("sim_io property={PROP} tier={} VERIF_SEED={base_seed} runs={runs} workers={workers}{}", tier.name(), if simcore::debug_stage() { " stage=debug-profile" } else { "" });
     let t0 = std::time::Instant::now();
     let accs = simcore::par::run_batch(runs, workers, 4096, |_| Acc::default(), |acc: &mut Acc, i, _s: &AtomicBool| one_run(acc, base_seed, i, det_n));
     let mut acc = Acc::default();
@@ -905,15 +905,15 @@ pub fn main(args: &Args) -> i32 {
     }
     let mut reported = Vec::new();
     for (sig, idx, cnt, _detail) in new.iter().take(5) {
-        let run_seed = rng::mix(base_seed, rng::domain(PROP), *idx);
+        let run_seed = rng::mix(base_seed, simcore::stage_domain(PROP), *idx);
         let h = gen(&mut Rng::new(run_seed));
         let (hm, info) = minimise(&h, sig);
         let ex = execute(&hm);
         let detail = ex.verdict.as_ref().map(|v| v.1.clone()).unwrap_or_default();
-        let path = format!("{}/replays/{PROP}-{}-{}.json", simcore::verif_dir(), base_seed, idx);
+        let path = simcore::replay_path(PROP, base_seed, *idx);
         simcore::write_json_atomic(
             &path,
-            &json!({"property": PROP, "engine": "sim_io/c15 (single-client SourceView histories)", "base_seed": base_seed,
+            &json!({"property": PROP, "profile": simcore::profile_name(), "engine": "sim_io/c15 (single-client SourceView histories)", "base_seed": base_seed,
                     "run_index": idx, "run_seed": run_seed, "history": hm.to_json(), "signature": sig, "detail": detail,
                     "event_hash": format!("{:016x}", ex.event_hash), "minimisation": info}),
         );
@@ -982,7 +982,7 @@ pub fn main(args: &Args) -> i32 {
             "sampled, not exhaustive"
         ],
     });
-    simcore::write_json_atomic(&format!("{}/evidence/{PROP}.json", simcore::verif_dir()), &ev);
+    simcore::write_json_atomic(&simcore::evidence_path(PROP), &ev);
     println!(
         "runs={} calls={} distinct={} nontrivial={} cache_states={} violating_runs={} wall={:.1}s digest={:016x}",
         acc.runs, acc.calls, distinct, nontrivial, cache_states, acc.violations.total(), wall, acc.digest
